@@ -180,6 +180,7 @@ def parseStep (ts : List String) : Option SStep :=
   | ["lset", s, key, v, p, l, nd] =>
     some (.w (natD s) (natD key) (.lset (natD v) (natD p) (natD l) (natD nd)))
   | ["tick", s, j] => some (.tick (natD s) (natD j))
+  | ["round", s, j] => some (.round (natD s) (natD j))
   | ["dl", m] => some (.dl (natD m))
   | _ => none
 
@@ -205,21 +206,21 @@ def keyLine (kind : Kind) (n st key nid : Nat) (x : Rep) : String :=
     let dead := sortNat (x.os.tomb.map tagKey)
     s!"{head} q {x.os.seq} E {showNats (elemsOf x.os)} T {showNats live} D {showNats dead}"
 
+def storeLines (kind : Kind) (n : Nat) (st : SSt) (tag : String) (a : Nat) : List String :=
+  ((st.p.keysOf a).mergeSort (fun x y => x.1 ≤ y.1)).map fun kn =>
+    tag ++ (keyLine kind n a kn.1 kn.2 ((sysAt st.sys kn.1).rep a)).drop 1
+
 def runStore (v : Variant) (kind : Kind) (n : Nat) (body : List String) : List String :=
   let steps := body.filterMap (fun l => parseStep (toks l))
   let rec go (st : SSt) (i : Nat) : List SStep → List String
-    | [] => []
+    | [] => (List.range n).flatMap fun a => storeLines kind n st "f" a
     | x :: xs =>
       let acting := st.p.acting x
       let st' := st.step v kind x
       let created := (st'.p.msgs.drop st.p.msgs.length).zipIdx.map
         fun (m, j) => msgLine (st.p.msgs.length + j) m
       let head := match acting with | some a => s!"t {i} {a}" | none => s!"t {i} -"
-      let keys := match acting with
-        | some a =>
-          ((st'.p.keysOf a).mergeSort (fun x y => x.1 ≤ y.1)).map fun kn =>
-            keyLine kind n a kn.1 kn.2 ((sysAt st'.sys kn.1).rep a)
-        | none => []
+      let keys := (st.p.actors x).flatMap fun a => storeLines kind n st' "s" a
       head :: created ++ keys ++ go st' (i + 1) xs
   go (SSt.init n (parsePeers n body)) 0 steps
 
@@ -228,13 +229,13 @@ def parseMsgObs (ts : List String) : Option MsgObs :=
   | "m" :: id :: _ :: src :: dst :: keys => some ⟨natD id, natD src, natD dst, nats keys⟩
   | _ => none
 
-def parseKObs (ts : List String) : Option (Nat × KObs) :=
+def parseKObs (tag : String) (ts : List String) : Option (Nat × Nat × KObs) :=
   match ts with
-  | "obs" :: _ :: key :: "v" :: v :: _ => some (natD key, { value := intD v })
-  | ["obs", _, key, "lww", "none"] => some (natD key, {})
-  | ["obs", _, key, "lww", p, l, nd, w] =>
-    some (natD key, { lww := some (⟨natD p, natD l, natD nd⟩, natD w) })
-  | "obs" :: _ :: key :: "E" :: es => some (natD key, { elems := nats es })
+  | t :: st :: key :: "v" :: v :: _ => if t == tag then some (natD st, natD key, { value := intD v }) else none
+  | [t, st, key, "lww", "none"] => if t == tag then some (natD st, natD key, {}) else none
+  | [t, st, key, "lww", p, l, nd, w] =>
+    if t == tag then some (natD st, natD key, { lww := some (⟨natD p, natD l, natD nd⟩, natD w) }) else none
+  | t :: st :: key :: "E" :: es => if t == tag then some (natD st, natD key, { elems := nats es }) else none
   | _ => none
 
 /-- group the body: a step line opens a record, `m` / `obs` lines belong to the last step -/
@@ -249,14 +250,15 @@ def groupSteps (body : List String) : List StepObs :=
         match acc with
         | [] => go acc rest
         | so :: more =>
-          match parseMsgObs ts, parseKObs ts with
+          match parseMsgObs ts, parseKObs "obs" ts with
           | some mo, _ => go ({ so with created := so.created ++ [mo] } :: more) rest
           | none, some ko => go ({ so with obs := so.obs ++ [ko] } :: more) rest
           | none, none => go acc rest
   go [] body
 
 def judgeStoreBlock (kind : Kind) (n nkeys : Nat) (body : List String) : List String :=
-  match judgeStore kind n nkeys (groupSteps body) with
+  let fin := body.filterMap fun l => parseKObs "fin" (toks l)
+  match judgeStore kind n nkeys (parsePeers n body) (groupSteps body) fin with
   | none => ["ok"]
   | some sig => [s!"viol {sig}"]
 
